@@ -308,7 +308,8 @@ static void build_alphabet() {
   const SV svals[] = {{"abc", "abc", "abc", "plain"}, {"'a b'", "a b", "a b", "squoted-blank"},
                       {"\"q'q\"", "q'q", "q'q", "dquoted-apostrophe"}, {"''", "", "", "empty"},
                       {"?x", "?x", "?x", "starts-with-qmark"},
-                      {"r\xc3\xa9s.log", "r\xc3\xa9s.log", "r\xc3\xa9s.log", "non-ascii-unquoted"}};
+                      {"r\xc3\xa9s.log", "r\xc3\xa9s.log", "r\xc3\xa9s.log", "non-ascii-unquoted"},
+                      {"run_{id}.log", "run_{id}.log", "run_{id}.log", "braces"}, {"}{0}", "}{0}", "}{0}", "unbalanced-braces"}};
   auto add = [&](Item it, bool red) { it.reduced = red; ALPHA.push_back(it); };
   auto queries = [&](Opt o, const NF& nf) {
     for (auto& sp : seps) {
@@ -389,7 +390,7 @@ static void build_alphabet() {
   static const char* REDUCED[] = {
     "n=0", "n=-7", "n=42", "n=99999999999", "N=42", "N=0", "n=?", "n 42",
     "d=1.5", "d=-2e3", "d=1e400", "D=1.5", "D=-2e3", "d=?", "d = 1.5",
-    "s=abc", "s='a b'", "s=\"q'q\"", "s=''", "s=?x", "s=r\xc3\xa9s.log", "S=abc", "o:s='a b'", "O:S=abc", "ostr=\"q'q\"", "OSTR=''", "OSTR=abc", "s=?", "s 'a b'",
+    "s=abc", "s='a b'", "s=\"q'q\"", "s=''", "s=?x", "s=r\xc3\xa9s.log", "s=run_{id}.log", "s=}{0}", "S=abc", "o:s='a b'", "O:S=abc", "ostr=\"q'q\"", "OSTR=''", "OSTR=abc", "s=?", "s 'a b'",
     "f", "F", "f=1", "f=?",
     "alg:m=0", "alg:m=-7", "alg:m=42", "alg:m=99999999999", "ALG:M=42", "meth=0", "METH=-7", "METH=42", "method=42", "method=-7",
     "Method=0", "meth=?", "meth 42",
@@ -459,7 +460,7 @@ static Sources render(const std::vector<Step>& h) {
   return so;
 }
 // run the real parser over the three sources
-static Observed execute(VSolver& sv, const Sources& so, bool collecting, bool via_getters = true) {
+static Observed execute(VSolver& sv, const Sources& so, bool collecting, bool via_getters = true, bool echo = false) {
   Observed ob;
   sv.reset_values();
   char* envbuf[2] = {nullptr, nullptr};
@@ -470,7 +471,7 @@ static Observed execute(VSolver& sv, const Sources& so, bool collecting, bool vi
   std::vector<char*> argv;
   for (auto& a : so.argv) argv.push_back(heap_copy(a));
   argv.push_back(nullptr);
-  try { ob.ret_ok = sv.ParseOptions(argv.data(), mp::BasicSolver::NO_OPTION_ECHO); }
+  try { ob.ret_ok = sv.ParseOptions(argv.data(), echo ? 0 : mp::BasicSolver::NO_OPTION_ECHO); }
   catch (const mp::OptionError& e) { ob.threw = std::string("mp::OptionError: ") + e.what(); }
   catch (const mp::Error& e) { ob.threw = std::string("mp::Error: ") + e.what(); }
   catch (const std::logic_error& e) { ob.threw = std::string("std::logic_error: ") + e.what(); }
@@ -594,7 +595,8 @@ static void run_history(ACtx& cx, const std::vector<Step>& h, bool full_family, 
       // the fresh object additionally knows an executable path whose basename is not the solver name (as backends set it
       // from argv[0]); no <basename>_options variable exists, so <solver>_options must still be read
       fresh.set_exe_path("/opt/ampl/c11alt-10.2");
-      Observed ob2 = execute(fresh, so, collecting);
+      // ... and echoes every assignment (into its own output handler): echoing must not change what is stored or reported
+      Observed ob2 = execute(fresh, so, collecting, true, true);
       fresh_checked = true;
       if (!(ob2.st == ob.st) || ob2.nerr != ob.nerr || ob2.threw != ob.threw || ob2.ret_ok != ob.ret_ok) {
         if (!silent) COUNT("A_reused_vs_fresh_object_divergence", 1);
